@@ -187,8 +187,8 @@ def selftest(prop, seed, n, runs, main_digests):
     env["PYTHONHASHSEED"] = str(1 + (seed % 1000))
     env["VERIF_WORKERS"] = "5"
     p = subprocess.run([sys.executable, os.path.join(VERIF, "check.py"), prop, "--digests",
-                        ",".join(seeds), "--runs", str(runs)], env=env, capture_output=True, text=True,
-                       timeout=600, cwd=VERIF)
+                        ",".join(seeds), "--runs", str(runs), "--tier", os.environ.get("VERIF_TIER_ACTIVE", "quick")],
+                       env=env, capture_output=True, text=True, timeout=900, cwd=VERIF)
     fresh = {}
     for line in p.stdout.splitlines():
         if line.startswith("DIGESTS "):
@@ -216,6 +216,7 @@ def main(prop_id, argv=None):
     ap.add_argument("--shard-out")
     args = ap.parse_args(argv)
     mod = load(prop_id)
+    os.environ["VERIF_TIER_ACTIVE"] = args.tier
     seed = int(os.environ.get("VERIF_SEED", "20261002"))
     budget = mod.BUDGET[args.tier]
     runs = args.runs or budget["runs"]
